@@ -321,41 +321,71 @@ def c10(ctx):
     if ctx.quick():
         hists = [x for i, x in enumerate(hists) if (i + ctx.seed) % 250 == 0]
     else:
-        hists = [x for i, x in enumerate(hists) if (i + ctx.seed) % 25 == 0]
+        hists = [x for i, x in enumerate(hists) if (i + ctx.seed) % 40 == 0]
     genf = os.path.join(ctx.gen, "mem_hist.ndjson")
     with open(genf, "w") as f:
         for x in hists:
             f.write(json.dumps(x) + "\n")
     tr = os.path.join(ctx.traces, "mem.ndjson")
-    nh, ln = (12, 40) if ctx.quick() else (150, 50)
+    nh, ln = (12, 40) if ctx.quick() else (100, 50)
     sv(binary, ["mem", "--gen", genf, "--seed", ctx.seed, "--hist", nh, "--len", ln, "--out", tr], ctx=ctx, timeout=9000)
-    trace = read_trace(tr)
-    mism = trace_check(ctx, "Trace_Mem", tr)
-    seg, segs, impl_of = 0, [], []
-    impl = "?"
-    for e in trace:
-        if e["ev"] == "Reset":
-            seg += 1
-            impl = e["impl"]
-        segs.append(seg)
-        impl_of.append(impl)
-    bad = set()
-    for line, fields in mism:
-        e = trace[line - 1]
-        if segs[line - 1] in bad:
-            continue            # only the first unexplained observation of a history is reported (the rest follows from it)
-        bad.add(segs[line - 1])
-        # history prefix that leads to the first unexplained observation of this history
-        start = line - 1
-        while trace[start]["ev"] != "Reset":
-            start -= 1
-        prefix = [{k: v for k, v in x.items() if k != "obs"} for x in trace[start:line]]
-        ctx.violations.append({"key": "%s/%s/%s" % (impl_of[line - 1], fields[0], e["ev"]), "detail": "%s after %s on %s: %s (trace line %d)" % (fields[0], e["ev"], impl_of[line - 1], json.dumps(e.get("obs"))[:200], line),
-                               "event": e, "history": prefix if len(prefix) < 60 else prefix[-60:], "trace": tr, "line": line})
-    ctx.traces_validated += seg - len(bad)
-    for e in trace:
-        if e["ev"] in ("Clone", "Drop", "Swap", "Move", "Grow"):
-            ctx.distinct.add(h([e["ev"], e["obs"]]))
+    # validated in chunks cut at Reset events (a chunk = whole histories): the thorough trace runs to gigabytes
+    first_events = []
+
+    def flush(lines, idx, whole):
+        if not lines:
+            return
+        part = tr if whole else "%s.part%d" % (tr, idx)
+        if not whole:
+            with open(part, "w") as f:
+                f.writelines(lines)
+        trace = [json.loads(l) for l in lines]
+        mism = trace_check(ctx, "Trace_Mem", part, tag="Trace_Mem_%d" % idx)
+        seg, segs, impl_of = 0, [], []
+        impl = "?"
+        for e in trace:
+            if e["ev"] == "Reset":
+                seg += 1
+                impl = e["impl"]
+            segs.append(seg)
+            impl_of.append(impl)
+        bad = set()
+        for line, fields in mism:
+            e = trace[line - 1]
+            if segs[line - 1] in bad:
+                continue            # only the first unexplained observation of a history is reported (the rest follows from it)
+            bad.add(segs[line - 1])
+            # history prefix that leads to the first unexplained observation of this history
+            start = line - 1
+            while trace[start]["ev"] != "Reset":
+                start -= 1
+            prefix = [{k: v for k, v in x.items() if k != "obs"} for x in trace[start:line]]
+            ctx.violations.append({"key": "%s/%s/%s" % (impl_of[line - 1], fields[0], e["ev"]), "detail": "%s after %s on %s: %s (trace line %d)" % (fields[0], e["ev"], impl_of[line - 1], json.dumps(e.get("obs"))[:200], line),
+                                   "event": e, "history": prefix if len(prefix) < 60 else prefix[-60:], "trace": part, "line": line})
+        ctx.traces_validated += seg - len(bad)
+        for e in trace:
+            if e["ev"] in ("Clone", "Drop", "Swap", "Move", "Grow"):
+                ctx.distinct.add(h([e["ev"], e["obs"]]))
+        if not first_events:
+            first_events.extend(trace[:8])
+        if not whole and not mism:
+            os.remove(part)
+    for stale in glob.glob(tr + ".part*"):
+        os.remove(stale)
+    chunk_bytes = int(os.environ.get("SV_RT_CHUNK_BYTES", 100_000_000))
+    whole = os.path.getsize(tr) <= chunk_bytes
+    lines, size, idx = [], 0, 0
+    with open(tr, encoding="utf-8", errors="replace") as f:
+        for l in f:
+            if not l.strip():
+                continue
+            if size >= chunk_bytes and '"ev":"Reset"' in l[:60]:
+                flush(lines, idx, False)
+                lines, size, idx = [], 0, idx + 1
+            lines.append(l)
+            size += len(l)
+    flush(lines, idx, whole and idx == 0)
+    trace = first_events
     ctx.samples += [[{k: v for k, v in x.items() if k != "obs"} for x in trace[1:8]]]
     mc.join()
     ctx.rule = ("MC_Mem: ownership model (2 terms, 3 instances, 6 heap cells) - rebuilt clone satisfies SelfContained/NoDangling/NoUseAfterFree/Bijection on all 17,787 states, verbatim clone refuted; "
